@@ -12,6 +12,7 @@ recv <id> <hex|->                              -> <events> | <state>       ("-" 
 send <q|p|e|o> <rid> <sobj> <dctx> <dobj> <tag> <payloadhex> <sendOk>     -> <events>
 disc <name>                                    -> <events> | exc:QMI_UnknownNameException
 connect <id> <name> (<asked>:<chunkhex>)*       -> <events> | ok|exc:<err> | <state> | reqs=ok|<model's request sizes>
+closeall                                       -> <events>     (_SocketManager.close_all)
 state <id> / peers / frame <hex>
 ```
 -/
@@ -24,6 +25,7 @@ def parseName (s : String) : Option (Option Name) :=
   else match s.toList with
     | 'n' :: ds => (String.ofList ds).toNat?.map (fun k => some (Name.ctx k))
     | 'c' :: ds => (String.ofList ds).toNat?.map (fun k => some (Name.client k))
+    | 'd' :: ds => (String.ofList ds).toNat?.map (fun k => some (Name.dollar k))
     | _ => none
 
 def parseName1 (s : String) : Option Name :=
@@ -34,6 +36,7 @@ def parseName1 (s : String) : Option Name :=
 def showName : Name → String
   | .ctx k => s!"n{k}"
   | .client k => s!"c{k}"
+  | .dollar k => s!"d{k}"
 
 def showOName : Option Name → String
   | none => "-"
@@ -201,6 +204,9 @@ def stepLine (w : World) (line : String) : World × String :=
       let rq := if reqs == rc.map (·.1) then "reqs=ok" else s!"reqs={reqs}"
       (r.1, s!"{showEvs r.2.1} | {res} | {showState r.1 id} | {rq}")
     | _, _, _ => (w, "bad-op")
+  | ["closeall"] =>
+    let r := w.closeAll
+    (r.1, showEvs r.2)
   | ["state", id] =>
     match id.toNat? with
     | some id => (w, showState w id)
